@@ -644,6 +644,8 @@ func checkC19(p *Prog, r *Report) {
 	// the surface boundary is the air temperature of the weather record of the day: a day without a record (zeros left
 	// in the arrays) imposes 0 degC — every stored value is guarded by the consecutive-day test (shared with C04.R2)
 	c04ReadersAs(p, r, "C19.O9")
+	// the lower boundary temperature of a run is its own configured value: no parsed configuration is kept in the session (shared with C03.R2b)
+	c03Session(p, r, p.SSA(), "C19.O10")
 }
 
 func uniq(ss []string) []string {
